@@ -877,6 +877,39 @@ def option_partition(ctx: Ctx, rep: Report, rid: str = "R01.11") -> None:
         rep.ok("Option.line setter: partition", f"both lists select from {b1}", where=where(f))
 
 
+def validated_before_stored(ctx: Ctx, rep: Report, rid: str = "R01.14") -> None:
+    """A field object that refuses a value is left as it was: in the line setters that hold one derived value (Protocol:
+    the number) no path stores that value and raises afterwards - otherwise the refused text has already changed the
+    object, and the entry renders a protocol the grammar does not have (`permit 256 any any`)."""
+    from .normalise import normalised
+
+    rep.rule(rid)
+    n = 0
+    for q, attrs in (("Protocol.line.setter", ("_number",)),):
+        f0 = ctx.prog.find_func(q)
+        if f0 is None:
+            continue
+        f = normalised(ctx, f0, "calls,tailcalls")
+        cfg = ctx.cfg(f)
+        stores = [nd for nd in cfg.live if nd.kind == "stmt" and isinstance(nd.ast, (ast.Assign, ast.AnnAssign, ast.AugAssign)) and any(isinstance(t, ast.Attribute) and src(t.value) == "self" and t.attr in attrs for t in (nd.ast.targets if isinstance(nd.ast, ast.Assign) else [nd.ast.target]))]
+        n += 1
+        rep.instance()
+        rep.require(bool(stores), f"{q} no longer stores {attrs}")
+        bad = None
+        for st in stores:
+            for m in cfg.reachable(st, labels_avoid=("exc",)):
+                if m is not st and m.kind == "stmt" and isinstance(m.ast, ast.Raise):
+                    bad = (st, m)
+                    break
+            if bad:
+                break
+        if bad:
+            rep.violation(q, f"{snippet(bad[0].ast, 40)} ... {snippet(bad[1].ast, 40)}", "the value is stored before it is validated: a refused assignment leaves the refused value in the object, which then renders text its own grammar does not have", where(f0, bad[0].ast), inp="ace.protocol.line = '300' (ValueError caught); ace.line == 'permit 300 any any'")
+        else:
+            rep.ok(q, f"no raise is reachable after the store of {', '.join(attrs)}", where=where(f0, stores[0].ast))
+    rep.floor(1, "single-value field setters") if n else None
+
+
 def single_env_(f: Func):
     from .common import single_env
 
@@ -887,6 +920,7 @@ def run(ctx: Ctx, rep: Report, tier: str) -> None:
     option_tokens(ctx, rep)
     option_partition(ctx, rep)
     has_port_twin(ctx, rep)
+    validated_before_stored(ctx, rep)
     normaliser_total(ctx, rep)
     # R01.9 operands of a valid ACE are accepted: the operand range is exactly the port universe (C08 R08.8)
     from .c08 import operand_range
